@@ -107,6 +107,9 @@ func runProperty(opts *Options, p *PropInfo) (code int) {
 				continue
 			}
 			p.Run(ctx)
+			if f := seedfix3[p.ID]; f != nil {
+				f(ctx)
+			}
 		}
 		if opts.Tier == "thorough" {
 			rep.config = "selftest"
